@@ -142,6 +142,7 @@ type Exec struct {
 	oblAtReturn      int
 	entryState       *State
 	oldCache         map[string]Value
+	constRefs        []*Term
 }
 
 type modEntry struct {
@@ -1124,6 +1125,12 @@ func (x *Exec) skolemize(t *Term) *Term {
 		return ts.Or(out...)
 	case t.kind == kApp && t.op == "=>":
 		return ts.Implies(t.args[0], x.skolemize(t.args[1]))
+	case t.kind == kApp && t.op == "=" && t.args[0].sort == SBool && hasQuant(t, map[int]bool{}):
+		// iff: both directions, universals in the conclusions skolemised
+		a, b := t.args[0], t.args[1]
+		return ts.And(ts.Implies(a, x.skolemize(b)), ts.Implies(b, x.skolemize(a)))
+	case t.kind == kApp && t.op == "ite" && t.sort == SBool && hasQuant(t, map[int]bool{}):
+		return ts.And(ts.Implies(t.args[0], x.skolemize(t.args[1])), ts.Implies(ts.Not(t.args[0]), x.skolemize(t.args[2])))
 	}
 	return t
 }
